@@ -48,8 +48,12 @@ static uint64_t work_cont(int n, int seed) {
     if (i % 5 == 4) pop_at(a, $I(0));
     sim_yield(SITE_EXPLICIT);
   }
-  sort(a);
-  foreach (x in a) { h = mix(h, (uint64_t)c_int(x)); }
+  /* threads sort with different comparison functions at overlapping times */
+  if (seed & 1) sort_by(a, gt); else sort(a);
+  { int64_t prev = 0; int first = 1;
+    foreach (x in a) { int64_t v = c_int(x);
+      if (!first && ((seed & 1) ? v > prev : v < prev)) viol("C13", "C13:digest-differs:cont", "an Array sorted inside a thread is out of order (comparison function of another thread?)");
+      prev = v; first = 0; h = mix(h, (uint64_t)v); } }
   h = mix(h, len(t));
   for (int k = 0; k < 23; k++) { int64_t kk = (int64_t)k * 1265 + 3; if (mem(t, $I(kk))) h = mix(h, (uint64_t)c_int(get(t, $I(kk)))); }
   del_raw(t); del_raw(a);
